@@ -196,6 +196,14 @@ class StatsExt:
                     et = getattr(StatEvents, sp["react"][0])
                     pr.react_type = id(et)
                     st.add_listener(et, pr)
+        if self.case.get("plain_stats"):
+            # ordinary (non-simulation) statistics created in construct_model and
+            # registered by hand, as the docs allow
+            model.plain = []
+            for j, cls in enumerate((Tally, Counter, WeightedTally)[:self.case["plain_stats"]]):
+                ps = cls("plain%d" % j)
+                model.add_output_statistic("plain%d" % j, ps)
+                model.plain.append(ps)
         model.streams = [MersenneTwister(s) for s in self.case.get("stream_seeds", [])]
 
     def perform(self, runner, model, owner, idx, a):
